@@ -18,6 +18,7 @@ python3 translate/rs2lean_engine.py /repo lean/RSVerif/Gen/SrcEngine.lean || tru
 python3 translate/rs2lean_default.py /repo lean/RSVerif/Gen/SrcDefault.lean || true
 python3 translate/rs2lean_oneshot.py /repo lean/RSVerif/Gen/SrcOneShot.lean || true
 python3 translate/rs2lean_iter.py /repo lean/RSVerif/Gen/SrcIter.lean || true
+python3 translate/rs2lean_kernel.py /repo lean/RSVerif/Gen/SrcKernel.lean || true
 mods=""
 for f in lean/RSVerif/Properties/C*.lean; do
   m=$(basename "$f" .lean)
